@@ -3,6 +3,7 @@
 package gldap
 
 import (
+	"context"
 	"fmt"
 
 	ber "github.com/go-asn1-ber/asn1-ber"
@@ -222,4 +223,45 @@ func H_C16_mux() {
 	}
 	vAssert((e != nil) == (h == nil), "error iff nil handler")
 	vReach("registered")
+}
+
+func init() { vReg("H_C16_zeromux", H_C16_zeromux) }
+
+// A zero-value Mux (not built by NewMux) accepts every kind of registration and serves.
+func H_C16_zeromux() {
+	m := &Mux{}
+	ran := 0
+	h := func(w *ResponseWriter, r *Request) { ran++ }
+	var err error
+	switch vLen("registration", 7) {
+	case 0:
+		err = m.Bind(h)
+	case 1:
+		err = m.Search(h, WithBaseDN(vStr("base")))
+	case 2:
+		err = m.ExtendedOperation(h, ExtendedOperationName(vStr("name")))
+	case 3:
+		err = m.Modify(h)
+	case 4:
+		err = m.Add(h)
+	case 5:
+		err = m.Delete(h)
+	case 6:
+		err = m.Unbind(h)
+	case 7:
+		err = m.DefaultRoute(h)
+	}
+	vAssert(err == nil, "registration on a zero-value Mux succeeds")
+	vAssert(m.DefaultRoute(h) == nil, "default route on a zero-value Mux")
+	nc := vNetConn("c")
+	c, cerr := newConn(context.Background(), 1, nc, vLogger(), m)
+	vAssume(cerr == nil)
+	vSummarise("encodeInteger")
+	req, rerr := newRequest(1, c, &packet{Packet: vWire(refEnvelope(1, refDeleteOp(), nil))})
+	vAssume(rerr == nil && req != nil)
+	w, werr := newResponseWriter(c.writer, &c.writerMu, c.logger, c.connID, 1)
+	vAssume(werr == nil)
+	m.serve(w, req)
+	vAssert(ran == 1, "the request is served by a registered route")
+	vReach("zero mux")
 }
